@@ -762,6 +762,10 @@ def resetOnExit (w : World) (r : StepResult) : StepResult :=
     { r with w := { r.w with ro := clearCursor r.w.ro } }
   else r
 
+/-- the reset fires (as a `Bool`, for the oracles): the rollout was Progressing and its new status says Terminating or Disabling -/
+def exitsProgressing (w : World) (r : StepResult) : Bool :=
+  w.ro.phase = .progressing && (r.w.ro.phase = .terminating || r.w.ro.phase = .disabling)
+
 def Out.map (f : StepResult → StepResult) : Out → Out
   | .val r => .val (f r)
   | .panic => .panic
